@@ -308,3 +308,45 @@ def run(chk, F, G_):
     chk.ob(rid, "monotone", not sets_true,
            "a supported-method flag is assigned something other than false in %s: the verdict depends on visiting "
            "order" % sets_true, "src/featurechecker.cpp")
+
+
+def run_valuekind(chk, F, rid="R-VALUEKIND"):
+    """expression_t::get_value() is std::get<int32_t> on the node's value: it throws for a constant that holds a double
+    (`x' == 1.5`) and is meaningless for a node that is no constant.  In the feature checker every get_value() must be
+    reached only for an integer constant."""
+    from ..inline import sites_with_conditions, strip
+    chk.rule(rid, "every expression_t::get_value() in FeatureChecker is reached only on a path that has established, for "
+                  "the same expression, kind == CONSTANT and an integral (non-double) type")
+    n = 0
+    for fn in F.functions.values():
+        if fn.get("cls") != FC or fn.get("body") is None:
+            continue
+        for site, conds in sites_with_conditions(fn["body"], lambda x: x.get("k") == "call" and x.get("name") == "get_value"
+                                                 and x.get("cls") == "UTAP::expression_t" and x.get("recv") is not None):
+            r = short(site["recv"])
+            is_const = is_int = False
+            for c, t in conds:
+                for z in walk(c):
+                    if z.get("k") == "bin" and z.get("op") in ("==", "!="):
+                        txt = short(z)
+                        if r + ".get_kind()" in txt and "CONSTANT" in txt:
+                            # `!=` with early exit (cond false) or `==` (cond true)
+                            c0, neg = strip(c), False
+                            if c0 is z and ((z["op"] == "==") == t):
+                                is_const = True
+                    if z.get("k") == "call" and z.get("name") in ("is_double", "is_integral", "is_integer") and \
+                            r + ".get_type()" in short(z.get("recv")):
+                        c0 = strip(c)
+                        if c0 is z:
+                            if z["name"] == "is_double" and not t:
+                                is_int = True
+                            if z["name"] != "is_double" and t:
+                                is_int = True
+            n += 1
+            chk.ob(rid, "%s|%s" % (fn["name"], r), is_const and is_int,
+                   "%s calls %s.get_value() %s: for the valid invariant `x' == 1.5` the constant holds a double and "
+                   "std::get<int32_t> throws std::bad_variant_access out of the feature checker - no verdict at all" %
+                   (fn["q"], r, "without having established that it is an integer constant" if is_const else
+                    "without having established that it is a constant"), "%s:%s" % (fn["file"], site.get("l")))
+    if n < 1:
+        raise AnalysisBroken("no get_value() call found in FeatureChecker")
